@@ -44,7 +44,7 @@ claim(
     "C17",
     "history monitor with completion counters: every pipeline stage subscribed through on_next/on_completed/on_error counters and compared after every step with a reference computed from the events delivered during the active period",
     "Seeded random histories (<=14/22 ops over two probes: attach 12 kinds of reducing / non-reducing stages before, during and after activation, activate via with/global/child, calls inside and outside the active period, deactivate normally/by exception/explicitly, re-activation attempts through root and child) against the real giving/ptera pipeline; exactly-once completion, silence outside the active period, late-attachment cut-off, and 'refused re-activation changes nothing' are asserted after every step. Held-on-observed.",
-    "Event reference hand-derived for a 5-line program; reductions over an empty period only required to terminate once; double deactivation not generated; failing result handlers raise RuntimeError or a BaseException subclass.",
+    "Event reference hand-derived for a 5-line program; reductions over an empty period only required to terminate once; double deactivation not generated; failing result handlers raise RuntimeError or a BaseException subclass; completion at interpreter exit is observed on three child interpreters.",
 )
 claim(
     "C14",
